@@ -313,6 +313,17 @@ pub fn run(rep: &Report) -> serde_json::Value {
             }
         }
     }
+    // F14: references whose declared number of id words is really there (0..12, 255, 1000 words), in the three reference tags
+    for words in [0usize, 1, 2, 3, 4, 5, 6, 7, 8, 12, 255, 1000] {
+        for tag in [114u8, 90] {
+            let mut b = vec![131u8, tag]; b.extend_from_slice(&(words as u16).to_be_bytes()); b.extend_from_slice(&[119, 3, b'n', b'@', b'h']);
+            if tag == 114 { b.push(1); } else { b.extend_from_slice(&[0, 0, 0, 1]); }
+            for w in 0..words { b.extend_from_slice(&(w as u32 + 1).to_be_bytes()); }
+            for &e in &[0u8, 1, 2, 3, 10] { inputs.push(Input { family: "F14-reference-words", entry: e, bytes: b.clone(), inflated: 0, over_declared: false, depth: 0 }); }
+            let mut in_tuple = vec![131u8, 104, 2]; in_tuple.extend_from_slice(&b[1..]); in_tuple.extend_from_slice(&[97, 1]);
+            for &e in &[0u8, 1] { inputs.push(Input { family: "F14-reference-words", entry: e, bytes: in_tuple.clone(), inflated: 0, over_declared: false, depth: 0 }); }
+        }
+    }
     // F12: FLOAT_EXT texts (31 bytes, NUL padded): every shape a float-text reader may stumble over
     for text in ["", "e", "E", ".", "-", "+", "1", "1.", ".5", "1.5e", "1.5e+", "1.5e-", "1.5E5", "1e5", "1.5e5", "1.50000000000000000000e+00", "-1.50000000000000000000e-300", "1e309", "-1e309", "nan", "NaN", "inf", "-inf", "infinity",
         "0x1p3", " 1.5", "1.5 ", "1,5", "1.5e5e5", "1..5", "--1", "1e+", "e5", "9999999999999999999999999999999", "1.5e99999999999999999999999999", "\u{e9}1.5"] {
